@@ -237,6 +237,7 @@ def checkTour (c : Case) : VM Unit := do
   vstat "c10.networks" 1
   vstat "c10.tourhyps" (if tourHypsB nw then 1 else 0)
   vstat "c10.formhyps" (if formHypsB nw then 1 else 0)
+  vstat "c10.limithyps" (if formHypsB nw && ovfNodeB nw then 1 else 0)
   vstat "tour.changed" nChanged
   vstat "tour.insert-ties" nInsertTies
 
